@@ -203,7 +203,8 @@ def run(ctx):
 
     # ------------------------------------------------------------------ C07.a / C09.a concatenations with a name part
     for fn, st, n, parts in concat_sites:
-        if any("cType" in (au.terminal(e) or "") for e in parts):
+        from ..carriers import local_roles, role as _role
+        if any(_role(e, local_roles(fn)) == "cType" for e in parts):
             continue  # row-letter strings, not names
         org = ctx.origins(fn, values_only=True)
         kinds = [_classify_part(e, org, st, closed_ok) for e in parts]
@@ -229,7 +230,11 @@ def run(ctx):
             else:
                 ctx.ob(rid, fn, au.short(n, 100), True, ok_detail="pattern %s, %s" % (pattern, sink), node=n, trivial=True)
             continue
-        ctx.ob(rid, fn, au.short(n, 100), inj,
+        stable = None
+        if rid == "C09.e":
+            # output labels: key by the *kinds* of the parts, not by local variable names
+            stable = "output label " + "+".join((au.const_str(e) if k == "C" else k) for e, k in zip(parts, kinds))
+        ctx.ob(rid, fn, au.short(n, 100), inj, key=(stable or ""), detail=
                "concatenation pattern %s (C constant, D digits of an integer column, F free string, K closed literal set, "
                "X per-object constant) is used as %s%s but is not injective: two different (field, field) pairs give the same "
                "string, e.g. ('1','11') and ('11','1')" % (pattern, sink, (" %r" % what) if what else ""), node=n)
